@@ -149,6 +149,11 @@ func (r *R) Scalar() interface{} {
 	case 11:
 		return primitive.DateTime([]int64{0, 1, -1, 1000, 1600000000000, 4102444800000}[r.N(6)])
 	case 12:
+		if r.P(30) {
+			// far-apart seconds and counters (differences beyond 2^31 / 2^63 when packed)
+			ts := []uint32{0, 1, 0x3FFFFFFF, 0x40000000, 0x7FFFFFFF, 0x80000000, 0x90000000, 0xFFFFFFFE, 0xFFFFFFFF}
+			return primitive.Timestamp{T: ts[r.N(len(ts))], I: ts[r.N(len(ts))]}
+		}
 		return primitive.Timestamp{T: uint32(r.N(3)), I: uint32(r.N(3))}
 	case 13:
 		return primitive.Regex{Pattern: []string{"a", "b", "^a"}[r.N(3)], Options: []string{"", "i"}[r.N(2)]}
